@@ -103,6 +103,7 @@ def run(ctx):
                                           dict(rec, shift=[s, t]), {'api': api, 'method': name, 'what': 'shift_equivariance'})
 
     W.storage_independence(ctx, 'C03')
+    W.argument_types(ctx, 'C03')
     buffer_reuse(ctx)
     from .genpipelines import check_generated_pipelines; check_generated_pipelines(ctx)   # pipelines regenerated from the source vs implementation
     from .genpipelinesmore import check_generated_pipelines_more; check_generated_pipelines_more(ctx)   # Generated/PipelinesMore.lean (NumPy fraunhofer_inverse, rayleigh_sommerfeld, equal size adjust)
